@@ -6,6 +6,7 @@ Nothing here is derived from the Go sources: the method table below is written f
 connection blocked/unblocked).  The Go field names that the harness prints are related to the
 specification's argument names by `camel`.
 """
+from fam import aggregate as _agg
 import json
 import struct
 
@@ -1006,7 +1007,7 @@ def gen_props_sweep(rng, exhaustive=False):
 def vh(ctx, mode, lines, extra=(), timeout=600):
     rc, out = ctx.vh("vh-amqp", [mode] + list(extra), inp="\n".join(lines) + "\n", timeout=timeout)
     res = []
-    for l in out.splitlines():
+    for l in out.split("\n"):
         if l.startswith("{"):
             try:
                 res.append(json.loads(l))
@@ -1583,6 +1584,7 @@ def c11(ctx, extra_lines=()):
         for k, it in enumerate(out["items"]):
             nitems += 1
             ctx.count_case(("amqp-c11", line, k), True, "amqp-c11-" + it["rqm"].replace(" ", "-"))
+            _agg.note_c16(ctx, "amqp", it.get("c16"), {"family": "amqp", "how": "vh-amqp stage", "case": line, "item": k})
             msg = it.get("stage", "")
             if it.get("rep"):
                 shapes[it["rep"]] = shapes.get(it["rep"], 0) + 1
